@@ -35,6 +35,11 @@ Interleaved leg (one DATADumpFile object that is written AND read): every histor
   the reader's own state: keys C15:interleaved:<file|bytesio>:reader-state:...) and, if that
   run is clean, as plain API use (what fails only there comes from where an append after a
   read lands: keys C15:interleaved:<file|bytesio>:append-position:...).
+Re-append leg: ONE message object is appended several times and changed in place in between
+  (burst elements / slice / whole buffer changed in the same burst object, header fields
+  changed, burst re-bound; Tx and Rx, v0/v1, NOPE; append_msg / append_all; both backends;
+  optionally encoded once before).  Every read must return the values that were current at
+  each append.  Keys C15:reappend:<file|bytesio>:<Tx|Rx>:...
 
 A capture file is a pure function of its octets for the reader, and the truncated image
 of history h cut inside (or at the end of) its i-th record is octet-identical to the
@@ -643,6 +648,154 @@ def work_interleaved(arg):
     return {"cov": cov, "viol": keep[:40], "nviol_extra": max(0, len(out) - len(keep[:40]))}
 
 
+# ---------------------------------------------------------------------------
+# re-append leg: ONE message object appended several times, changed in place in between
+
+RA_KINDS = [0, 1, 2, 5, 8, 10]         # Tx v0 148, Tx v1 444, Rx v0 148, Rx v1 8-PSK, Rx v1 32QAM, Rx v1 NOPE
+RA_MUTS = ["none", "item", "slice", "header", "rebind", "item+header", "fill"]
+RA_APIS = ["append_msg", "append_all", "append_all-twice"]
+
+
+def ra_snapshot(m):
+    """plain-dict copy of the values the message object holds right now (the oracle's stored message)"""
+    e = {"cls": type(m).__name__, "ver": m.ver, "fn": m.fn, "tn": m.tn}
+    if e["cls"] == "TxMsg":
+        e["pwr"] = m.pwr
+        e["burst"] = bytes(m.burst)
+        return e
+    e.update(rssi=m.rssi, toa256=m.toa256)
+    if m.ver >= 1:
+        e.update(nope=bool(m.nope_ind), ci=m.ci)
+        if not m.nope_ind:
+            e.update(mod=m.mod_type.name, tsc_set=m.tsc_set, tsc=m.tsc)
+    e["burst"] = None if m.burst is None else list(m.burst)
+    if e["burst"] is not None:
+        e["raw"] = bytes(x & 0xff for x in e["burst"])
+    return e
+
+
+def ra_mutate(m, mut, step):
+    """change the message object in place; deterministic in (mut, step)"""
+    tx = type(m).__name__ == "TxMsg"
+    b = m.burst
+
+    def other(v, j):
+        if tx:
+            return 1 - v
+        return -v if v else 5 + j % 100
+    for part in mut.split("+"):
+        if part == "none" or (b is None and part in ("item", "slice", "fill", "rebind")):
+            continue
+        if part == "item":                       # single elements, the object stays the same
+            for j in (0, len(b) // 2, len(b) - 1):
+                b[j] = other(b[j], j + step)
+        elif part == "slice":                    # slice assignment into the same object
+            new = [other(x, j) for j, x in enumerate(b[10:40])]
+            b[10:40] = bytearray(new) if tx else array('b', new)
+        elif part == "fill":                     # the pre-allocated buffer refilled completely
+            for j in range(len(b)):
+                b[j] = ((j + step) & 1) if tx else (((j * 11 + step * 17) % 255) - 127)
+        elif part == "rebind":                   # a new burst object
+            new = [other(x, j + step) for j, x in enumerate(b)]
+            m.burst = bytearray(new) if tx else array('b', new)
+        elif part == "header":
+            m.fn = (m.fn + 1000 + step) % HYPER
+            m.tn = (m.tn + 3) % 8
+            if tx:
+                m.pwr = (m.pwr + 77) % 256
+            else:
+                m.rssi = -120 + (-m.rssi + 13 + step) % 74
+                m.toa256 = -m.toa256 - 1
+                if m.ver >= 1:
+                    m.ci = max(-1280, min(1280, -m.ci + step + 1))
+                    if not m.nope_ind:
+                        m.tsc = (m.tsc + 5) % 8
+        else:
+            raise HarnessError("mutation %r" % part)
+
+
+def run_reappend(backend, directory, kind, api, pre, muts, out, cov, stats):
+    """build one message object; [gen_msg() once]; append; mutate; append; mutate; append; then every read"""
+    cap = Capture(backend, directory)
+    case = {"leg": "reappend", "backend": backend, "kind": kind, "api": api, "pre": pre, "muts": list(muts)}
+    cov["reappend_histories"] += 1
+    what_hist = "%s of one %s object%s with in-place changes %s between the appends (%s)" % (
+        api, MENU_NAMES[kind], ", encoded once with gen_msg() before" if pre else "", list(muts), backend)
+    stored = []
+    try:
+        m = build_msg(stored_entry(kind, 0))
+        if type(m).__name__ == "TxMsg":
+            m.burst = bytearray(m.burst)
+        try:
+            if pre:
+                m.gen_msg()
+            for step, mut in enumerate(["none"] + list(muts)):
+                ra_mutate(m, mut, step)
+                if api == "append_msg":
+                    cap.d.append_msg(m)
+                    stored.append(ra_snapshot(m))
+                elif api == "append_all":
+                    cap.d.append_all([m])
+                    stored.append(ra_snapshot(m))
+                else:
+                    cap.d.append_all([m, m])
+                    stored += [ra_snapshot(m), ra_snapshot(m)]
+        except BaseException as ex:
+            out.append(("C15:reappend:%s:append:raises-%s" % (backend, type(ex).__name__), case,
+                        "%s: raised %s: %s" % (what_hist, type(ex).__name__, ex)))
+            return
+        n = len(stored)
+        ops = [("all", None, None, True)] + [("msg", i) for i in range(n + 1)]
+        ops += [("all", sk, c, False) for sk in [None] + list(range(n + 1)) for c in (None, 1, 2)]
+        dd = env()["dd"]
+        for reader, rname in ((cap.d, "same-object"), (dd.DATADumpFile(io.BytesIO(cap.content())), "fresh-reader")):
+            for op in ops:
+                tmp = []
+                nonempty = judge_op(reader, op, stored, n, "-", tmp, case, stats)
+                cov["evaluations"] += 1
+                cov["reappend_reads"] += 1
+                if nonempty:
+                    cov["distinct_nontrivial"] += 1
+                for key, c, msg in tmp:
+                    what = ":".join(key.split(":")[1:-1])
+                    out.append(("C15:reappend:%s:%s:%s" % (backend, "Tx" if kind in (0, 1) else "Rx", what), case,
+                                "%s, %s: %s" % (what_hist, rname, msg)))
+    finally:
+        cap.close()
+
+
+def work_reappend(arg):
+    backend, kind, api = arg
+    env()
+    out, stats = [], {"idx_beyond": {}, "skip_beyond": {}, "skip_at_end": {}}
+    cov = {"evaluations": 0, "distinct_nontrivial": 0, "reappend_histories": 0, "reappend_reads": 0}
+    directory = None
+    if backend == "file":
+        from vlib.runner import VERIF
+        directory = os.path.join(VERIF, "build", "c15.%d" % os.getpid())
+        os.makedirs(directory, exist_ok=True)
+    try:
+        for pre in (False, True):
+            for muts in itertools.product(RA_MUTS, repeat=2):
+                if len(out) >= UNIT_LIMIT:
+                    cov["units_cut_short"] = 1
+                    break
+                run_reappend(backend, directory, kind, api, pre, muts, out, cov, stats)
+    finally:
+        if directory:
+            shutil.rmtree(directory, ignore_errors=True)
+    seen, keep = set(), []
+    for v in out:
+        if v[0] not in seen:
+            seen.add(v[0])
+            keep.append(v)
+    return {"cov": cov, "viol": keep[:40], "nviol_extra": max(0, len(out) - len(keep[:40]))}
+
+
+def reappend_items():
+    return [(b, k, a) for b in ("file", "bytesio") for k in RA_KINDS for a in RA_APIS]
+
+
 def interleaved_items(quick):
     """(backend, append steps, read alphabet of the read points in between, vary r0)"""
     items = []
@@ -692,8 +845,12 @@ def run(ctx):
     found.sort(key=lambda v: (len(v[1]["steps"]), str(v[1]["steps"]), v[0]))
     for v in found:
         ctx.violation(*v)
+    ra = reappend_items()
+    for r in ctx.pmap(work_reappend, ra, chunksize=1):
+        ctx.merge(r)
     c = ctx.cov
     c["interleaved_work_items"] = len(il)
+    c["reappend_work_items"] = len(ra)
     c["menu"] = NMENU
     c["max_history"] = nmax
     c["ops_per_image"] = len(ops_for(nmax))
@@ -715,6 +872,13 @@ def run(ctx):
                     "to the record end and uncut images get the complete product)"
                     % ("all images" if ctx.quick else "images of 4-message histories cut inside the 4th record only - "
                        "every image of the <= 3-message histories gets the complete product", EDGE)))
+    c["rule"] += ("; RE-APPEND leg: ONE message object (%d kinds: Tx v0/v1, Rx v0, Rx v1 8-PSK / 32QAM / NOPE) is appended three "
+                  "times (append_msg / append_all([m]) / append_all([m, m])) to a real file and to a BytesIO, optionally "
+                  "encoded once with gen_msg() before, with every ordered pair of in-place changes from %s between the "
+                  "appends (burst elements / a slice / the whole buffer changed in the same object, header fields "
+                  "changed, burst re-bound); the oracle keeps a copy of the values current at each append; parse_all(), "
+                  "parse_msg(i), parse_all(skip in {None,0..n}, count in {None,1,2}) through the writing object and a "
+                  "fresh reader must return exactly those" % (len(RA_KINDS), RA_MUTS))
     c["rule"] += ("; INTERLEAVED leg: on one DATADumpFile object (a real file opened by path in a private directory under "
                   "/verif/build, and a BytesIO) every history r0, A1, r1[, A2, r2[, A3, r3]]: append steps from %s; read "
                   "steps r_i from {nothing, parse_msg(0..n+1), parse_all(), parse_all(skip in {None,0..n+1}, count in "
@@ -741,6 +905,24 @@ def run(ctx):
 
 
 def replay(ctx, case):
+    if case.get("leg") == "reappend":
+        env()
+        out, stats = [], {"idx_beyond": {}, "skip_beyond": {}, "skip_at_end": {}}
+        cov = {"evaluations": 0, "distinct_nontrivial": 0, "reappend_histories": 0, "reappend_reads": 0}
+        directory = None
+        if case["backend"] == "file":
+            from vlib.runner import VERIF
+            directory = os.path.join(VERIF, "build", "c15.%d" % os.getpid())
+            os.makedirs(directory, exist_ok=True)
+        try:
+            run_reappend(case["backend"], directory, int(case["kind"]), case["api"], bool(case["pre"]), case["muts"], out,
+                         cov, stats)
+        finally:
+            if directory:
+                shutil.rmtree(directory, ignore_errors=True)
+        for v in out:
+            ctx.violation(*v)
+        return
     if case.get("leg") == "interleaved":
         env()
         out, stats = [], {"idx_beyond": {}, "skip_beyond": {}, "skip_at_end": {}}
